@@ -661,7 +661,7 @@ def judge(case):
 
 def oracle(ctx, scale=1):
     rng = ctx.rng("oracle")
-    out, n1, n2 = [], ctx.n(60, 800) * scale, ctx.n(64, 800) * scale
+    out, n1, n2 = [], ctx.n(60, 500) * scale, ctx.n(64, 560) * scale
     dist = {}
     for i in range(n1):
         sc = gen_scenario(rng, i)
